@@ -47,7 +47,37 @@ CASES: List[Tuple[str, bool, str, str]] = [
     ("constant-param-helper", True,
      "class A:\n    def f(self, name):\n        try:\n            self.scs = self.m[lit(name)]\n        except KeyError:\n            if S.STRICT:\n                raise E('x')\n",
      "class A:\n    def _sel(self, name, stroking):\n        try:\n            cs = self.m[lit(name)]\n        except KeyError:\n            if S.STRICT:\n                raise E('x')\n            return\n        if stroking:\n            self.scs = cs\n        else:\n            self.ncs = cs\n    def f(self, name):\n        self._sel(name, stroking=True)\n"),
+    ("call-through-conditional-callee", True,
+     "class A:\n    def f(self, s, a):\n        if s.v():\n            r = self.rv(a, s.m)\n        else:\n            r = self.rh(a, s.m)\n        s.m = r\n",
+     "class A:\n    def f(self, s, a):\n        render = self.rv if s.v() else self.rh\n        s.m = render(a, s.m)\n"),
+    ("disjoint-ranges-to-elif", True,
+     "def f(n, out, it):\n    if n >= 0 and n < 128:\n        out.append(next(it))\n    if n > 128:\n        out.extend(it)\n",
+     "def f(n, out, it):\n    if 0 <= n < 128:\n        out.append(next(it))\n    elif n > 128:\n        out.extend(it)\n"),
+    ("mirrored-range-loops", True,
+     "def f(self, a, b):\n    if b < a:\n        for x in range(b, a):\n            self.l[x] = self.c\n    elif a < b:\n        for x in range(a, b):\n            self.l[x] = self.c\n",
+     "def f(self, a, b):\n    (lo, hi) = (b, a) if b < a else (a, b)\n    for i in range(lo, hi):\n        self.l[i] = self.c\n"),
+    ("in-index-vs-find", True,
+     "def f(self, line, n):\n    if b'endstream' in line:\n        i = line.index(b'endstream')\n        n += i\n        self.d += line[:i]\n        return n\n    n += len(line)\n    return n\n",
+     "def f(self, line, n):\n    k = line.find(b'endstream')\n    if k >= 0:\n        n += k\n        self.d += line[:k]\n        return n\n    n += len(line)\n    return n\n"),
+    ("unpacked-default-list-or-tuple", True,
+     "def f(spec):\n    (vy, w) = resolve1(spec.get('DW2', [880, -1000]))\n    return (vy, w)\n",
+     "def f(spec):\n    (vy, w) = resolve1(spec.get('DW2', (880, -1000)))\n    return (vy, w)\n"),
     # ------------------------------------------------------------------ must stay different
+    ("ranges-that-meet-are-not-exclusive", False,
+     "def f(n, out, it):\n    if n >= 0 and n <= 128:\n        out.append(next(it))\n    if n >= 128:\n        out.extend(it)\n",
+     "def f(n, out, it):\n    if 0 <= n <= 128:\n        out.append(next(it))\n    elif n >= 128:\n        out.extend(it)\n"),
+    ("first-arm-rebinds-the-tested-name", False,
+     "def f(n, out):\n    if n < 10:\n        n = n + 100\n        out.append(n)\n    if n > 50:\n        out.append(0)\n",
+     "def f(n, out):\n    if n < 10:\n        n = n + 100\n        out.append(n)\n    elif n > 50:\n        out.append(0)\n"),
+    ("one-direction-only-loop", False,
+     "def f(self, a, b):\n    if b < a:\n        for x in range(b, a):\n            self.l[x] = self.c\n    elif a < b:\n        for x in range(a, b):\n            self.l[x] = self.c\n",
+     "def f(self, a, b):\n    for x in range(a, b):\n        self.l[x] = self.c\n"),
+    ("find-arms-swapped", False,
+     "def f(self, line, n):\n    if b'endstream' in line:\n        i = line.index(b'endstream')\n        n += i\n        return n\n    n += len(line)\n    return n\n",
+     "def f(self, line, n):\n    k = line.find(b'endstream')\n    if k == -1:\n        n += k\n        return n\n    n += len(line)\n    return n\n"),
+    ("kept-default-list-is-not-a-tuple", False,
+     "def f(spec):\n    w = spec.get('W', [880, -1000])\n    return w\n",
+     "def f(spec):\n    w = spec.get('W', (880, -1000))\n    return w\n"),
     ("call-moved-across-test", False,
      "def f(self):\n    eol = False\n    while 1:\n        self.fill()\n        if eol:\n            c = self.buf[self.pos]\n            break\n        m = E.search(self.buf)\n        if m:\n            eol = True\n",
      "def f(self):\n    eol = False\n    while 1:\n        if eol:\n            c = self.buf[self.pos]\n            break\n        self.fill()\n        m = E.search(self.buf)\n        if m:\n            eol = True\n"),
